@@ -54,6 +54,21 @@ def respell(case):
             continue
         specs = mc.element_specs(v, axis)
         eids = [it["id"] for it in v.items]
+        # two DIFFERENT keys of one dict naming the same item (e.g. '10', position 3 and '0020' all meaning item v0_d) carry conflicting
+        # entries whose precedence is an accident of dict order, which re-spelling changes: an ambiguous input, nothing is demanded of it
+        # (found by the thorough tier, 1 case in 19 650)
+        targets = []
+        for k0, _x in td["elements"]:
+            h0 = [i for i, s_ in enumerate(specs) if any(type(k0) is type(x) and k0 == x for x in s_["spell"])]
+            if len(h0) == 1:
+                targets.append(h0[0])
+            elif not h0:
+                ai = k0 if isinstance(k0, int) and not isinstance(k0, bool) else (
+                    int(k0) if isinstance(k0, str) and k0.lstrip("-").isdigit() else None)
+                if ai is not None and 0 <= ai < len(specs) and ai not in eids:
+                    targets.append(ai)
+        if len(set(targets)) != len(targets):
+            return copy.deepcopy(case["transforms"]), 0
         for pair in td["elements"]:
             k = pair[0]
             hits = [s for s in specs if any(type(k) is type(x) and k == x for x in s["spell"])]
